@@ -174,7 +174,7 @@ fn reference(e: &Expr) -> Val {
                 _ => x <= y,
             }),
             (Val::B(x), Val::B(y)) if op % 5 == 0 => Val::B(x == y),
-            // no implicit conversion between the operands: Equals is FALSE (other comparisons are not generated for these)
+            // no implicit conversion between the operands: FALSE for every comparison operator
             _ => Val::B(false),
         },
         Expr::Between(v, lo, hi) => match (reference(v), reference(lo), reference(hi)) {
@@ -279,7 +279,8 @@ fn boolish() -> impl Strategy<Value = Expr> {
         3 => any::<bool>().prop_map(Expr::Bool),
         1 => Just(Expr::Null),
         6 => (0u8..5, num(), num()).prop_map(|(op, a, b)| Expr::Cmp(op, Box::new(a), Box::new(b))),
-        1 => (num(), "[a-c]{1,3}").prop_map(|(a, s)| Expr::Cmp(0, Box::new(a), Box::new(Expr::Str(s)))),
+        // no implicit conversion exists between these operands: every comparison operator is FALSE (Part 4, 7.4.3)
+        2 => (0u8..5, num(), "[a-c]{1,3}", any::<bool>()).prop_map(|(op, a, s, swap)| if swap { Expr::Cmp(op, Box::new(Expr::Str(s)), Box::new(a)) } else { Expr::Cmp(op, Box::new(a), Box::new(Expr::Str(s))) }),
         2 => (num(), num(), num()).prop_map(|(v, lo, hi)| Expr::Between(Box::new(v), Box::new(lo), Box::new(hi))),
         2 => (num(), prop::collection::vec(num(), 1..4)).prop_map(|(v, l)| Expr::InList(Box::new(v), l)),
         1 => (any::<bool>(), (prop::sample::select(vec![1u8, 3, 5, 7]), 0u32..256), (prop::sample::select(vec![1u8, 3, 5, 7]), 0u32..256)).prop_map(|(or, a, b)| Expr::Cmp(0, Box::new(Expr::Bitwise(or, a, b)), Box::new(Expr::Num(7, if or { a.1 | b.1 } else { a.1 & b.1 })))),
